@@ -132,6 +132,10 @@ PLAN = {
 GOAL_CFG = {
     "g_cost": {"Keys": [1, 2, 3, 4], "Hashes": [1, 2, 3, 4], "Clients": [1], "MaxOps": 16, "Ops": ["set", "get"], "BufCap": 3,
                "Costs": [1, 2, 3], "InitMaxCost": 4, "MaxCosts": [4], "MaxGets": 4},
+    "g_fit": {"Keys": [1, 2, 3], "Hashes": [1, 2, 3], "Clients": [1], "MaxOps": 12, "Ops": ["set", "del", "wait", "get"], "BufCap": 3,
+              "Costs": [1, 3], "InitMaxCost": 9, "MaxCosts": [9], "MaxGets": 2},
+    "g_zero": {"Keys": [1, 2], "Hashes": [1, 2], "Clients": [1], "MaxOps": 8, "Ops": ["set", "wait", "get"], "BufCap": 3,
+               "Costs": [0, 2], "InitMaxCost": 2, "MaxCosts": [2], "TTLs": [0, 1], "MaxTime": 8, "MaxGets": 2},
     "g_victim": {"Keys": [1, 2, 3], "Hashes": [1, 2, 3], "Clients": [1, 2], "MaxOps": 8, "Ops": ["set", "del", "get"], "BufCap": 2,
                  "Costs": [1, 2], "InitMaxCost": 2, "MaxCosts": [2], "MaxGets": 2},
     "g_write": {"Keys": [1, 2], "Hashes": [1, 2], "Clients": [1, 2], "MaxOps": 8, "Ops": ["set", "del", "wait"], "BufCap": 1,
@@ -153,21 +157,22 @@ GOALS = {
     "G_SweepWithBuffered": "g_ttl", "G_LateApply": "g_ttl", "G_ExpiredUnswept": "g_ttl",
     "G_ClearWithBacklog": "g_clear", "G_ClearWhileBusy": "g_clear", "G_ClearWithPending": "g_clear1",
     "G_SameBucketRewrite": "g_ttl", "G_TTLDropped": "g_ttl", "G_SweepSkip": "g_ttl", "G_SetDuringSweepDel": "g_ttl",
-    "G_WaitBlockedInSend": "g_write", "G_TwoClears": "g_clear", "G_SetDuringClear": "g_clear", "G_DelDuringVictims": "g_victim",
+    "G_WaitBlockedInSend": "g_write", "G_TwoClears": "g_clear", "G_SetDuringClear": "g_clear",
+    "G_ExactFitAfterShrink": "g_fit", "G_ReAddAfterZeroSweep": "g_zero", "G_DelDuringVictims": "g_victim",
 }
 GOALS_FOR = {
     "C02": ["G_UpdateOfEvicted", "G_DroppedUpdate", "G_ClearWhileBusy", "G_DelDuringVictims", "G_SetDuringSweepDel", "G_SetDuringClear"],
-    "C03": ["G_RaiseCost", "G_TwoVictims", "G_DuplicateVictim", "G_UpdateOfEvicted"],
+    "C03": ["G_RaiseCost", "G_TwoVictims", "G_DuplicateVictim", "G_UpdateOfEvicted", "G_ExactFitAfterShrink", "G_ReAddAfterZeroSweep"],
     "C04": ["G_DroppedUpdate", "G_RejectWithVictims", "G_ClearWithBacklog", "G_ExpiredUnswept", "G_ClearWithPending", "G_SetDuringClear"],
     "C05": ["G_BlockedDel", "G_ClearWithBacklog", "G_DelDuringVictims", "G_WaitBlockedInSend"],
-    "C06": ["G_LateApply1", "G_ExpiredUnswept1", "G_SameBucketRewrite1", "G_TTLDropped1"],
+    "C06": ["G_LateApply1", "G_ExpiredUnswept1", "G_SameBucketRewrite1", "G_TTLDropped1", "G_ExactFitAfterShrink"],
     "C07": ["G_ExpiredUnswept", "G_LateApply", "G_ExpiredUnswept1", "G_SameBucketRewrite1", "G_SameBucketRewrite", "G_TTLDropped1"],
     "C08": ["G_BlockedDel", "G_ClearWithBacklog", "G_ClearWhileBusy", "G_WaitBlockedInSend", "G_TwoClears"],
-    "C09": ["G_RejectWithVictims", "G_TwoVictims", "G_DuplicateVictim"],
-    "C13": ["G_RejectWithVictims", "G_BlockedDel", "G_LateApply", "G_UpdateOfEvicted", "G_DelDuringVictims", "G_SweepSkip", "G_SetDuringClear", "G_SweepSkip1"],
-    "C14": ["G_SweepWithBuffered", "G_LateApply", "G_ExpiredUnswept", "G_SameBucketRewrite", "G_TTLDropped", "G_SweepSkip", "G_SetDuringSweepDel", "G_SweepSkip1", "G_SetDuringSweepDel1", "G_SweepWithBuffered1"],
+    "C09": ["G_RejectWithVictims", "G_TwoVictims", "G_DuplicateVictim", "G_ExactFitAfterShrink"],
+    "C13": ["G_RejectWithVictims", "G_BlockedDel", "G_LateApply", "G_UpdateOfEvicted", "G_DelDuringVictims", "G_SweepSkip", "G_SetDuringClear", "G_SweepSkip1", "G_DuplicateVictim", "G_ReAddAfterZeroSweep"],
+    "C14": ["G_SweepWithBuffered", "G_LateApply", "G_ExpiredUnswept", "G_SameBucketRewrite", "G_TTLDropped", "G_SweepSkip", "G_SetDuringSweepDel", "G_SweepSkip1", "G_SetDuringSweepDel1", "G_SweepWithBuffered1", "G_ReAddAfterZeroSweep"],
     "C15": ["G_ClearWithBacklog", "G_ClearWhileBusy", "G_ExpiredUnswept", "G_ClearWithPending", "G_TwoClears", "G_SetDuringClear"],
-    "C17": ["G_RejectWithVictims", "G_DroppedUpdate", "G_UpdateOfEvicted", "G_ClearWhileBusy", "G_ClearWithPending", "G_SetDuringClear"],
+    "C17": ["G_RejectWithVictims", "G_DroppedUpdate", "G_UpdateOfEvicted", "G_ClearWhileBusy", "G_ClearWithPending", "G_SetDuringClear", "G_DuplicateVictim", "G_TwoVictims", "G_ExactFitAfterShrink"],
 }
 
 
